@@ -11,7 +11,7 @@ from pjrpc.client import AbstractAsyncClient, AbstractClient
 from pjrpc.common import exceptions
 
 logging.disable(logging.CRITICAL)
-IDS = {'i0': 0, 'i1': 1, 'i2': 2, 'i3': 3, 'i4': 4, 'i9': 9, 's1': '1', 's2': '2', 'null': None}
+IDS = {'i0': 0, 'i1': 1, 'i2': 2, 'i3': 3, 'i4': 4, 'i9': 9, 's1': '1', 's2': '2', 'null': None, 'btrue': True, 'f1_0': 1.0}
 RID = {(type(v).__name__, v): k for k, v in IDS.items()}
 
 
